@@ -48,8 +48,8 @@ func Create(engine engine.Engine, owner key.TargetID, lc info.LightCone) {
 		Stats:  info.PropMap{prop.ATKPercent: 0.07 + 0.01*float64(lc.Imposition)},
 	}
 
-	engine.Events().BattleStart.Subscribe(func(event event.BattleStart) {
-		for char := range event.CharInfo {
+	engine.Events().BattleStart.Subscribe(func(_ event.BattleStart) {
+		for _, char := range engine.Characters() {
 			engine.AddModifier(char, mod)
 		}
 	})
